@@ -12,29 +12,43 @@ import (
 	"github.com/tink-crypto/tink-go/v2/aead"
 	"github.com/tink-crypto/tink-go/v2/aead/aesgcm"
 	"github.com/tink-crypto/tink-go/v2/insecurecleartextkeyset"
+	"github.com/tink-crypto/tink-go/v2/insecuresecretdataaccess"
 	"github.com/tink-crypto/tink-go/v2/internal/internalapi"
 	"github.com/tink-crypto/tink-go/v2/internal/verifharness/hlib"
 	"github.com/tink-crypto/tink-go/v2/key"
 	"github.com/tink-crypto/tink-go/v2/keyset"
 	"github.com/tink-crypto/tink-go/v2/mac"
+	"github.com/tink-crypto/tink-go/v2/monitoring"
 	"github.com/tink-crypto/tink-go/v2/secretdata"
-	"github.com/tink-crypto/tink-go/v2/insecuresecretdataaccess"
 	"google.golang.org/protobuf/proto"
 
 	tinkpb "github.com/tink-crypto/tink-go/v2/proto/tink_go_proto"
 )
 
 type world struct {
-	o      *hlib.Out
-	rng    *hlib.Rng
-	tape   *hlib.Tape
-	keyTok map[key.Key]int
-	nextK  int
-	mgrs   map[int]*keyset.Manager
-	hands  map[int]*keyset.Handle
-	ids    []uint32 // ids ever seen in this history (live or deleted)
+	o               *hlib.Out
+	rng             *hlib.Rng
+	tape            *hlib.Tape
+	keyTok          map[key.Key]int
+	nextK           int
+	mgrs            map[int]*keyset.Manager
+	hands           map[int]*keyset.Handle
+	ids             []uint32 // ids ever seen in this history (live or deleted)
 	everPrimary     map[int]bool
 	usedInternalAPI map[int]bool
+
+	// round 3b (ann.go): annotations, snapshots of every handle obtained, monitoring contexts
+	wantAnn   map[int]string // reference: canonical annotations of each manager
+	cmaps     []*callerMap   // maps the caller passed to SetAnnotations
+	recs      []*hrec        // handles obtained by history ops (all kept, also after their slot is reused)
+	tmpRecs   []*hrec        // ring of handles taken by the post-op oracle
+	tmpNext   int
+	ctxs      []*ctxRec
+	capturing bool
+	capCtx    []*monitoring.Context
+	capLog    []string
+	annP      int    // chance (percent) that a step is an annotation operation
+	curOp     string // the most recent manager operation (not the dump lines that follow it)
 }
 
 func statusCode(s keyset.KeyStatus) string {
@@ -113,6 +127,7 @@ func (w *world) hdump(h int) {
 		w.o.Violate("handle %d: %d primary entries", h, np)
 	}
 	w.o.Emit(fmt.Sprintf("M hdump %d", h), w.showEntries(es)+" | "+p, len(es) > 1)
+	w.hann(h)
 }
 
 func (w *world) pickID() uint32 {
@@ -147,6 +162,7 @@ func (w *world) maybeForce(m int) {
 		return
 	}
 	_, un := keyset.VerifManagerDump(w.mgrs[m])
+	un = hlib.SortedU32(un) // map order is random: keep the generation reproducible
 	n := w.rng.Intn(3)
 	var ws []uint32
 	for i := 0; i < n && len(un) > 0; i++ {
@@ -229,6 +245,16 @@ func (w *world) noteIDs(m int) {
 func (w *world) step(m int) {
 	km := w.mgrs[m]
 	o := w.o
+	if w.rng.Chance(w.annP) {
+		// SetAnnotations (the Lean side keeps the annotations next to the manager model)
+		w.annStep(m)
+		w.postOracle(m, w.curOp)
+		w.afterOp(w.curOp)
+		if w.rng.Chance(40) {
+			w.annMutate()
+		}
+		return
+	}
 	switch r := w.rng.Intn(100); {
 	case r < 18: // Add(template) or AddNewKeyFromParameters
 		t := w.pickTemplate()
@@ -404,12 +430,18 @@ func (w *world) step(m int) {
 		}
 		w.hands[h] = hd
 		o.Emit(fmt.Sprintf("M handle %d %d", m, h), res0(err), true)
+		last := o.LastOp
+		w.curOp = last
 		w.hdump(h)
+		if hd != nil {
+			w.primCheck(w.record(hd, fmt.Sprintf("%q", last), true), last)
+		}
 		return
 	}
+	w.curOp = w.o.LastOp
 	w.noteIDs(m)
 	w.dump(m)
-	w.postOracle(m, w.o.LastOp)
+	w.postOracle(m, w.curOp)
 }
 
 func (w *world) lookup(m int, id uint32) (keyset.KeyStatus, bool, bool) {
@@ -509,9 +541,45 @@ func (w *world) readerHandle(h int) {
 	es := keyset.VerifHandleDump(hd)
 	w.o.Count("reader_handle")
 	w.o.Emit(fmt.Sprintf("M defhandle %d %s", h, w.showEntries(es)), "ok", true)
+	w.record(hd, fmt.Sprintf("reader handle %q", w.o.LastOp), true)
 }
 
-func (w *world) history(maxOps int) {
+// prologue gives manager 0 an ENABLED primary right away, so that every later op is followed by a
+// successful Handle() whose result is kept and re-observed.
+func (w *world) prologue() {
+	km := w.mgrs[0]
+	if w.rng.Chance(60) {
+		w.annStep(0)
+	}
+	w.tape.Reset()
+	id, err := km.Add(aead.AES128GCMKeyTemplate())
+	draws := w.tape.DrawnU32()
+	if err != nil {
+		panic(err)
+	}
+	es, _ := keyset.VerifManagerDump(km)
+	w.o.Count("add/tink")
+	w.o.Emit(fmt.Sprintf("M add 0 1 1 %d %s", w.tok(es[len(es)-1].Key), hlib.U32List(draws)), res(id, err), true)
+	w.noteIDs(0)
+	w.dump(0)
+	err = km.SetPrimary(id)
+	if err == nil {
+		w.everPrimary[0] = true
+	}
+	w.o.Count("setprimary")
+	w.o.Emit(fmt.Sprintf("M setprimary 0 %d", id), res0(err), true)
+	w.curOp = w.o.LastOp
+	w.dump(0)
+	w.afterOp(w.curOp)
+}
+
+func (w *world) history(maxOps int, annBias bool) {
+	w.wantAnn = map[int]string{0: "-"}
+	w.cmaps, w.recs, w.tmpRecs, w.tmpNext, w.ctxs = nil, nil, nil, 0, nil
+	w.annP = 6
+	if annBias {
+		w.annP = 22
+	}
 	w.keyTok = map[key.Key]int{}
 	w.nextK = 0
 	w.mgrs = map[int]*keyset.Manager{0: keyset.NewManager()}
@@ -524,6 +592,9 @@ func (w *world) history(maxOps int) {
 	w.o.Emit("M new 0", "ok", false)
 	nm := 1
 	n := 1 + w.rng.Intn(maxOps)
+	if annBias && w.rng.Chance(70) {
+		w.prologue()
+	}
 	for i := 0; i < n; i++ {
 		m := w.rng.Intn(nm)
 		if w.rng.Chance(6) && nm < 4 {
@@ -534,18 +605,26 @@ func (w *world) history(maxOps int) {
 			}
 			if hd := w.hands[h]; hd != nil {
 				w.mgrs[nm] = keyset.NewManagerFromHandle(hd)
+				w.wantAnn[nm] = "-" // a manager made from a handle starts without annotations
 				w.everPrimary[nm] = true
 				w.o.Count("fromhandle")
 				w.o.Emit(fmt.Sprintf("M fromhandle %d %d", h, nm), "ok", true)
+				w.curOp = w.o.LastOp
 				w.noteIDs(nm)
 				w.dump(nm)
 				nm++
+				w.afterOp(w.curOp)
 				continue
 			}
 		}
 		w.step(m)
+		if len(w.cmaps) > 0 && w.rng.Chance(10) {
+			w.annMutate()
+		}
+		// handles obtained earlier are unaffected by later manager operations: all of them are
+		// re-observed against their snapshots, one is also compared with the model
+		w.afterOp(w.curOp)
 		if w.rng.Chance(10) {
-			// handles obtained earlier are unaffected by later manager operations
 			w.hdump(w.rng.Intn(8))
 		}
 	}
@@ -554,19 +633,23 @@ func (w *world) history(maxOps int) {
 			w.hdump(h)
 		}
 	}
+	for _, r := range w.recs {
+		w.primCheck(r, "end of history")
+	}
 }
 
 func main() {
 	o := hlib.Open("C11")
 	defer o.Close()
 	w := &world{o: o, rng: hlib.NewRng(*hlib.FlagSeed, "c11"), tape: hlib.InstallTape(*hlib.FlagSeed)}
+	w.installMonitoring()
 	nh := hlib.N(1500, 40000)
 	for i := 0; i < nh; i++ {
 		maxOps := 12
 		if i%4 == 0 {
 			maxOps = 80
 		}
-		w.history(maxOps)
+		w.history(maxOps, i%3 == 1)
 	}
 	o.Hist["histories"] = nh
 }
